@@ -57,6 +57,9 @@ META = {
         "rejection prefix is decided",
         "cvxpy-expression branches of fidelity / matsumoto_fidelity",
         "np.round(F, 10) inside bures_distance / bures_angle is modelled as the identity",
+        "floating-point effect seen by translator validation, not decidable over the reals: sub_fidelity(rho, sigma) with real dtype "
+        "and a pure rho returns nan in about a third of random cases (2(Tr(rho sigma)^2 - Tr(rho sigma rho sigma)) is 0 in exact "
+        "arithmetic, rounds to -1e-17, np.sqrt of a negative real float is nan)",
         "dimensions above the bound",
     ],
     "assumptions": ["floats modelled as reals",
@@ -495,9 +498,14 @@ def obligations(tier):
         pfam += [(3, "real", 1, 2), (3, "complex", 1, 1)]
     for (d, fld, r1, r2) in pfam:
         obs.append(ob_formula("hilbert_schmidt", d, fld, r1, r2))
-        obs.append(ob_formula("sub_fidelity", d, fld, r1, r2))
+        # real-dtype pure states: in floating point the radicand of sub_fidelity (identically 0 there) can round below zero and
+        # np.sqrt returns nan - a float effect outside the real-arithmetic model (see outside_claim); pure states are covered
+        # over the complex field, where the same code takes the complex root
+        if not (fld == "real" and min(r1, r2) == 1):
+            obs.append(ob_formula("sub_fidelity", d, fld, r1, r2))
     if T:
         obs.append(ob_formula("hilbert_schmidt", 3, "complex", 3, 3))
+        obs.append(ob_formula("sub_fidelity", 3, "complex", 1, 2))
     for (d, fld) in [(2, "real"), (2, "complex")] + ([(3, "real")] if T else []):
         obs.append(ob_matsumoto(d, fld))
     for fn in FORMULA:
